@@ -3,14 +3,16 @@ import math
 from props.common import BASE_TRUSTED
 
 PROP = 'C16'
-KERNELS = ['rr_clip', 'radial_clip', 'propagate', 'coat_transmit', 'coat_reflect']
+KERNELS = ['rr_clip', 'radial_clip', 'propagate', 'coat_transmit', 'coat_reflect',
+           'plumb_trace_real', 'plumb_interact', 'plumb_surface_trace', 'plumb_localize', 'plumb_globalize', 'plumb_coat_interact', 'plumb_group_trace', 'plumb_geom_localize', 'plumb_geom_globalize']
 THEOREMS = ['C16_clip_zero_or_same', 'C16_radial_clip_spec', 'C16_absorb_factor', 'C16_absorb_factor_bounds',
             'C16_coating_factor', 'C16_surface_intensity', 'C16_surface_intensity_monotone',
             'C16_intensity_path_invariant', 'C16_clipped_stays_zero',
             'C16_surface_intensity_exact', 'C16_surf_factor_def', 'C16_lossless_surface_keeps_intensity',
             'C16_unclipped_transparent_surface', 'C16_outside_aperture_zero_onward', 'C16_inside_aperture_not_clipped',
             'C16_intensity_path_product', 'C16_final_intensity_is_product', 'C16_factors_one_per_surface',
-            'C16_lossless_path_keeps_intensity', 'C16_factor_examples']
+            'C16_lossless_path_keeps_intensity', 'C16_factor_examples',
+            'C16_trace_surface_is_regenerated_plumbing', 'C16_trace_is_regenerated_plumbing', 'C16_frame_change_is_regenerated_plumbing', 'C16_repo_lists_def']
 COQ_TARGETS = ['Model/Trace.vo']
 TRUSTED_BASE = BASE_TRUSTED + [
     'hand model coq/Model/Trace.v (order of propagate/absorb, clip, interact, coating inside Surface._trace_real): tied by per-surface correspondence of the recorded intensities',
